@@ -6,5 +6,5 @@ git -C /repo archive HEAD | tar -x -C "$D"
 ( cd "$D" && git apply --unsafe-paths -p1 "$1" 2>/dev/null || patch -s -p1 < "$1" )
 shift
 PID=$1; TIER=${2:-quick}
-VERIF_REPO="$D" /verif/check "$PID" --tier "$TIER" --no-evidence | grep -E "VIOLATION|HARNESS|evaluations|^  \[" | head -8
-rm -rf "$D" /verif/replays
+VERIF_REPLAY_DIR="$D/replays" VERIF_REPO="$D" /verif/check "$PID" --tier "$TIER" --no-evidence | grep -E "VIOLATION|HARNESS|evaluations|^  \[" | head -8
+rm -rf "$D"
